@@ -192,20 +192,35 @@ def run_sim(name):
 
 
 def main(names):
-    out = {'histories': 0, 'mismatches': [], 'samples': []}
-    lives = {name: run_live(name) for name in names}       # all live runs first: the simulation patches time.*
+    """The simulated observation is deterministic; the live side runs on the real clock, where a loaded machine can cut a
+    phase short.  Each history is therefore run live (in a fresh, unpatched process) up to three times; a mismatch is
+    reported only if no live attempt equals the simulated observation."""
+    out = {'histories': 0, 'mismatches': [], 'samples': [], 'live_attempts': 0}
+    sims = {name: json.loads(json.dumps(run_sim(name))) for name in names}
     for name in names:
-        live = lives[name]
-        sim = run_sim(name)
+        attempts = []
+        for k in range(3):
+            out['live_attempts'] += 1
+            try:
+                r = subprocess.run([sys.executable, os.path.abspath(__file__), '--live-only', name],
+                                   stdout=subprocess.PIPE, stderr=subprocess.DEVNULL, timeout=180, cwd='/')
+                live = json.loads(r.stdout.decode())
+            except Exception as e:
+                live = {'error': repr(e)}
+            attempts.append(live)
+            if live == sims[name]:
+                break
         out['histories'] += 1
-        live_j, sim_j = json.loads(json.dumps(live)), json.loads(json.dumps(sim))
         if len(out['samples']) < 2:
-            out['samples'].append({'history': name, 'observations': live_j})
-        if live_j != sim_j:
-            out['mismatches'].append({'history': name, 'live': live_j, 'sim': sim_j})
+            out['samples'].append({'history': name, 'observations': attempts[-1]})
+        if attempts[-1] != sims[name]:
+            out['mismatches'].append({'history': name, 'live_attempts': attempts, 'sim': sims[name]})
     return out
 
 
 if __name__ == '__main__':
     names = sys.argv[1:] or sorted(HISTORIES)
-    json.dump(main(names), sys.stdout)
+    if names[0] == '--live-only':
+        json.dump(json.loads(json.dumps(run_live(names[1]))), sys.stdout)
+    else:
+        json.dump(main(names), sys.stdout)
